@@ -90,8 +90,18 @@ def _replay(path):
         from . import common, picklelib
         common.import_labrea()
         try:
-            pickle.loads(pickle.dumps(getattr(picklelib, doc["name"]), protocol=doc["proto"]))
-            print("replay: %s now pickles" % doc["name"])
+            src = getattr(picklelib, doc["name"])
+            cp = pickle.loads(pickle.dumps(src, protocol=doc["proto"]))
+            for o in ({"SOURCE": "smoothed"}, {"SOURCE": "raw"}, {"A": 3}):
+                try:
+                    a, b = cp(dict(o)), src(dict(o))
+                except Exception:  # noqa  (these probes only compare values where both evaluate)
+                    continue
+                if a != b:
+                    print("replay: under %s the copy gives %r, the original %r" % (o, a, b))
+                    print("VIOLATION property=C20 replay=%s" % doc.get("_path"))
+                    return 1
+            print("replay: %s now pickles and its copy behaves like it" % doc["name"])
             return 0
         except Exception as e:  # noqa
             print("replay: pickling %s fails: %s" % (doc["name"], e))
